@@ -139,6 +139,11 @@ def C01(ctx):
                     "  Ops <- AllOps\n  GetIgnoresCompl = FALSE\n  GetIgnoresKey = FALSE\n  Depth = 2\n  Sample = %d\n  Seed = %d\nCHECK_DEADLOCK FALSE\n"
                     % (o, 4 if ctx.quick else 1, ctx.seed % 4 if ctx.quick else 0))
         gen_and_replay(ctx, "GenMachine", cfg, "machine", "every 2-call history of BddMachine (2 variables, order %s) in a fresh cache-everything builder" % o, timeout=900)
+    for o in (["O201"] if ctx.quick else ["O201", "O120", "O012"]):
+        cfg = mkcfg(ctx, "GenMachine_%s.cfg" % o, "SPECIFICATION GSpec\nCONSTANTS\n  NV = 3\n  Ord <- %s\n  Slots = 0\n  MaxNodes = 9\n  MaxCache = 9\n  Cnfs <- NoCnfs\n"
+                    "  Ops <- AllOps\n  GetIgnoresCompl = FALSE\n  GetIgnoresKey = FALSE\n  Depth = 2\n  Sample = %d\n  Seed = %d\nCHECK_DEADLOCK FALSE\n"
+                    % (o, 16 if ctx.quick else 2, ctx.seed % (16 if ctx.quick else 2)))
+        gen_and_replay(ctx, "GenMachine", cfg, "machine", "2-call histories of BddMachine on 3 variables (order %s; first call from 1/%d of the ite triples)" % (o, 16 if ctx.quick else 2), timeout=1800)
     stress_canonical(ctx, "bdd", check="fn")
 
 
